@@ -47,6 +47,10 @@ Section M.
   Definition isa_pressure := isa_pressure_g c_T0 c_p0 c_g0 c_R c_beta c_htrop.
   Definition isa_altitude := isa_altitude_g c_T0 c_p0 c_g0 c_R c_beta c_htrop.
 
+  (* per-point atmospheric state used by the EI models: ISA T and p, Mach = TAS / sqrt(kappa R T) *)
+  Definition atmos_state (h tas : T N) : T N * T N * T N :=
+    (isa_temperature h, isa_pressure h, tas / nsqrt (c_kappa * c_R * isa_temperature h)).
+
   (* ------------------------------------------------------------------ *)
   (* Fuel Flow Method 2, Eq. 40: sea-level-static equivalent fuel flow   *)
   (* ------------------------------------------------------------------ *)
